@@ -17,6 +17,7 @@ import vlib
 from vlib import zlit
 import c01_util as U
 from c01_util import blit
+import c01_sites
 
 LEVEL = 'proof'
 META = {
@@ -151,10 +152,10 @@ Fixpoint len_loop (c : Cfg) (P : Prim TCS) (user : Z) (s : St TCS) (ws : list (Z
       end
   end.
 Definition chk_len (k : LenCase) : bool := let '(c, P, s, user, ws) := k in len_loop c P user s ws.
-Definition ReadCase := (list (option Z * Z) * list (list Z) * list (list Z))%type.
+Definition ReadCase := (list (option Z * Z) * list arrival * list (list Z))%type.
 Definition chk_read (k : ReadCase) : bool :=
   let '(calls, arr, exp) := k in
-  let '(outs, _, _) := read_calls calls [] arr in
+  let '(outs, _, _, _) := read_calls_c calls [] false arr in
   (zlen outs =? zlen exp) && forallb (fun p => list_eqb (fst p) (snd p)) (combine outs exp).
 Definition LimCase := (bool * bool * Z * Z * Z * Z)%type.
 Definition chk_lim (k : LimCase) : bool :=
@@ -197,9 +198,16 @@ def read_impl(chunks, calls):
             r = bytes(self.inp[:n])
             del self.inp[:n]
             return r
+
+        def close(self):
+            pass
     c = U.default_cfg('stream', (3, 3))
     srl, ssock, _ = U.make_rl(c, 'send')
     for ch in chunks:
+        if ch is None:          # the peer's close_notify
+            for _ in srl.sendRecord(Message(21, bytearray([1, 0]))):
+                pass
+            continue
         for _ in srl.sendRecord(Message(23, bytearray(ch))):
             pass
     sock = BSock()
@@ -246,6 +254,20 @@ def read_cases(ctx, n):
             avail = total - sum(len(o) for o in outs)
         if calls:
             out.append((chunks, calls))
+    # the peer closes somewhere in the stream: min may now exceed what will ever arrive
+    for _ in range(n):
+        k = rng.randrange(0, 5)
+        chunks = [rand_bytes(rng, rng.choice([1, 2, 5, 16, 40])) for _ in range(k)]
+        chunks.insert(rng.choice([len(chunks), len(chunks), rng.randrange(len(chunks) + 1)]), None)
+        total = sum(len(x) for x in chunks if x)
+        calls = []
+        for _ in range(rng.randrange(1, 7)):
+            mn = rng.choice([0, 1, 2, 7, 30, total, total + 1, 100])
+            mx = rng.choice([None, 1, 3, 10, 64, mn, mn + 1])
+            calls.append((mx, mn))
+        calls += [(None, 1)] * (len(chunks) + 1)  # drain: one record per call until the close; then b''
+        outs = read_impl(chunks, calls)
+        out.append((chunks, calls[:len(outs)] if len(outs) < len(calls) else calls))
     return out
 
 
@@ -264,21 +286,46 @@ ALL_MACS = ["sha", "sha256", "sha384", "md5", "aead"]
 ALL_VERSIONS = [(3, 0), (3, 1), (3, 2), (3, 3), (3, 4)]
 
 
-def handshake(ver, cipher, mac, etm, crsl, srsl, seed):
+def handshake(ver, cipher, mac, etm, crsl, srsl, seed, resume=None):
+    """resume: None | 'id' (session cache) | 'ticket' (TLS<=1.2 ticket / TLS 1.3 PSK): a first full
+    connection, then the connection that is returned resumes its session (None if it did not)."""
     import loop
+    from tlslite.api import SessionCache
     rnd = loop.DetRandom(seed).install()
     try:
         for kx in ('rsa', 'ecdhe_rsa', 'dhe_rsa'):
-            p = loop.Pair()
-            kw = dict(minv=ver, maxv=ver, cipherNames=[cipher], macNames=[mac], useEncryptThenMAC=etm)
-            cs = loop.settings(record_size_limit=crsl, **kw)
-            ss = loop.settings(record_size_limit=srsl, **kw)
-            if ver < (3, 4):
-                cs.keyExchangeNames = [kx]
-                ss.keyExchangeNames = [kx]
-            chain, key = loop.creds('rsa')
-            co, so = p.handshake(client_kw=dict(settings=cs), server_kw=dict(certChain=chain, privateKey=key, settings=ss))
-            if loop.classify(co) == ('ok',) and loop.classify(so) == ('ok',):
+            cache = SessionCache() if resume == 'id' else None
+            session = None
+            p = None
+            for rnd_no in range(2 if resume else 1):
+                p = loop.Pair()
+                kw = dict(minv=ver, maxv=ver, cipherNames=[cipher], macNames=[mac], useEncryptThenMAC=etm)
+                cs = loop.settings(record_size_limit=crsl, **kw)
+                ss = loop.settings(record_size_limit=srsl, **kw)
+                if resume == 'ticket':
+                    ss.ticketKeys = [bytearray(range(32))]
+                    ss.ticket_count = 2
+                if ver < (3, 4):
+                    cs.keyExchangeNames = [kx]
+                    ss.keyExchangeNames = [kx]
+                chain, key = loop.creds('rsa')
+                ckw = dict(settings=cs)
+                if session is not None:
+                    ckw['session'] = session
+                skw = dict(certChain=chain, privateKey=key, settings=ss)
+                if cache is not None:
+                    skw['sessionCache'] = cache
+                co, so = p.handshake(client_kw=ckw, server_kw=skw)
+                if not (loop.classify(co) == ('ok',) and loop.classify(so) == ('ok',)):
+                    p = None
+                    break
+                if resume and rnd_no == 0:
+                    p.transfer(p.server, p.client, b'x')          # lets the client pick up NewSessionTicket
+                    session = p.client.session
+                    p.close_both()
+                elif resume and not (p.client.resumed and p.server.resumed):
+                    return None
+            if p is not None:
                 return p
             if ver >= (3, 4):
                 break
@@ -322,11 +369,12 @@ def plain_range(info, ver, etm, mac_len, body_len):
 
 def conn_case(args):
     """One live connection: handshake, random schedule both ways.  Returns a result dict."""
-    (ver, cipher, mac, etm, crsl, srsl, user_c, user_s, seed, quick, pad) = args
+    (ver, cipher, mac, etm, crsl, srsl, user_c, user_s, seed, quick, pad) = args[:11]
+    opt = dict(args[11]) if len(args) > 11 and args[11] else {}
     import loop
     rng = random.Random(seed)
     res = dict(args=args, viol=[], stats=dict(writes=0, reads=0, bytes=0, records=0), lens=[], lims=[])
-    p = handshake(ver, cipher, mac, etm, crsl, srsl, seed)
+    p = handshake(ver, cipher, mac, etm, crsl, srsl, seed, resume=opt.get('resume'))
     if p is None:
         res['skip'] = 'handshake failed'
         return res
@@ -429,6 +477,44 @@ def conn_case(args):
         res['stats']['reads'] += 1
         return True
 
+    if 'close' in opt:
+        # the writer writes n bytes and closes (close_notify, or abruptly with ignoreAbruptClose on the reader);
+        # the reader consumes fixed frames read(frame, frame): everything written must be read, then b''
+        n, frame, how, wside = opt['close']
+        rside = 's' if wside == 'c' else 'c'
+        data = rand_bytes(rng, n)
+        if do_write(wside, data):
+            if how == 'notify':
+                loop.drive([ends[wside].closeAsync()])
+            else:
+                ends[rside].ignoreAbruptClose = True
+                socks[wside].close()
+            out = bytearray()
+            for _ in range(n // max(frame, 1) + 4):
+                val = [None]
+
+                def g():
+                    for r in ends[rside].readAsync(frame, frame):
+                        if r in (0, 1) and not isinstance(r, (bytes, bytearray)):
+                            yield r
+                        else:
+                            val[0] = bytes(r)
+                o = loop.drive([g()], max_steps=20000)[0]
+                if o[0] != 'ok' or val[0] is None:
+                    res['viol'].append(('read-failed-at-close', repr(loop.classify(o)), len(out)))
+                    break
+                if val[0] == b'':
+                    break
+                out += val[0]
+                res['stats']['reads'] += 1
+            if not res['viol'] and bytes(out) != data:
+                res['viol'].append(('lost-at-close', 'writer wrote %d bytes and closed (%s); read(%d,%d) frames returned %d bytes'
+                                    % (n, how, frame, frame, len(out)), len(out)))
+        res['lens'] = wire_lens
+        res['mode'] = dict(cname=cname, etm=etm_on, mac_len=mac_len, info=info,
+                           send_limit={k: ends[k]._send_record_limit for k in ends}, user={'c': user_c, 's': user_s})
+        res['lims'] = []
+        return res
     nops = 10 if quick else 24
     # both sides first write across two record boundaries (2L+1 bytes), then the random schedule
     for me in 'cs':
@@ -476,7 +562,7 @@ def conn_case(args):
 
 def model_cfg_for(res, me):
     """Toy configuration with the negotiated suite's geometry, to predict record body lengths."""
-    (ver, cipher, mac, etm, crsl, srsl, user_c, user_s, seed, quick, pad) = res['args']
+    (ver, cipher, mac, etm, crsl, srsl, user_c, user_s, seed, quick, pad) = res['args'][:11]
     m = res['mode']
     kind, a, b = m['info']
     if ver >= (3, 4):
@@ -590,15 +676,22 @@ def run(ctx):
     for chunks, calls in rcases:
         outs = read_impl(chunks, calls)
         ctx.count('readAsync-buffer', len(calls), [(mx, mn, len(o)) for (mx, mn), o in zip(calls, outs)])
-        data = b''.join(chunks)
+        has_close = None in chunks
+        data = b''.join(x for x in (chunks[:chunks.index(None)] if has_close else chunks))
+        # a read(None, 1) that returns b'' means: closed and nothing buffered -- then everything must have come out
+        lost = has_close and len(outs) == len(calls) and calls[-1] == (None, 1) and outs[-1] == b'' and b''.join(outs) != data
+        if lost:
+            found = True
+            ctx.violation('readAsync-lost-at-close', 'the peer wrote %d bytes and closed; readAsync calls %r returned only %d bytes'
+                          % (len(data), calls, len(b''.join(outs))), {'chunks': [x.hex() if x is not None else None for x in chunks], 'calls': calls})
         if b''.join(outs) != data[:sum(len(o) for o in outs)] or any(mx is not None and len(o) > mx for (mx, mn), o in zip(calls, outs)):
             found = True
             ctx.violation('readAsync-fifo', 'readAsync returned bytes out of order or more than max',
-                          {'chunks': [x.hex() for x in chunks], 'calls': calls})
-        arr = [x for x in chunks if x]
+                          {'chunks': [x.hex() if x is not None else None for x in chunks], 'calls': calls})
+        arr = [x for x in chunks if x or x is None]
         read_lits.append('([%s], [%s], [%s])' % (
             ';'.join('(%s, %s)' % ('None' if mx is None else '(Some %d)' % mx, zlit(mn)) for mx, mn in calls),
-            ';'.join(blit(a) for a in arr), ';'.join(blit(o) for o in outs)))
+            ';'.join('AClose' if a is None else 'AData %s' % blit(a) for a in arr), ';'.join(blit(o) for o in outs)))
 
     # ---------------- (b) connection level --------------------------------------------------
     pool = multiprocessing.Pool(vlib.NPROC)
@@ -625,6 +718,21 @@ def run(ctx):
                     if ver >= (3, 4):
                         pad = ctx.rng.choice([None, None, ('max', 5), ('blk', 64), ('max', 100000)])   # all within the stated guard
                     jobs.append((ver, ci, m, etm, a, b, uc, us, ctx.rng.randrange(1 << 30), quick, pad))
+                # resumed connections (session ID / ticket / TLS 1.3 PSK) with non-default limits on either side
+                if etm == etms[0] and (not quick or ci in ('aes128', 'aes128gcm')):
+                    for mode in ('id', 'ticket'):
+                        if mode == 'id' and ver >= (3, 4):
+                            continue
+                        for (a, b) in ((2 ** 14 + 1, 64), (100, 2 ** 14 + 1)) if quick else \
+                                ((2 ** 14 + 1, 64), (100, 2 ** 14 + 1), (64, 100), (2 ** 14, 2 ** 14 + 1), (None, 64)):
+                            jobs.append((ver, ci, m, etm, a, b, 2 ** 14, 2 ** 14, ctx.rng.randrange(1 << 30), quick, None,
+                                         (('resume', mode),)))
+                # the peer closes while the reader waits for `min` bytes
+                if etm == etms[0] and (not quick or ci in ('aes128', 'aes128gcm')):
+                    for how in ('notify', 'abrupt'):
+                        for (n, frame) in ((100, 30), (5, 64)) if quick else ((100, 30), (5, 64), (1, 2), (300, 300), (301, 300), (40000, 16000)):
+                            jobs.append((ver, ci, m, etm, 2 ** 14 + 1, 2 ** 14 + 1, 2 ** 14, 2 ** 14, ctx.rng.randrange(1 << 30), quick, None,
+                                         (('close', (n, frame, how, ctx.rng.choice('cs'))),)))
         results = pool.map(conn_case, jobs, chunksize=1)
     finally:
         pool.close()
@@ -632,18 +740,19 @@ def run(ctx):
     len_lits, lim_lits = [], []
     nskip = 0
     for r in results:
-        (ver, ci, m, etm, a, b, uc, us, seed, _, pad) = r['args']
+        (ver, ci, m, etm, a, b, uc, us, seed, _, pad) = r['args'][:11]
+        ropt = dict(r['args'][11]) if len(r['args']) > 11 and r['args'][11] else {}
         if r.get('skip'):
             nskip += 1
             continue
         st = r['stats']
         ctx.count('live-connection', st['writes'] + st['reads'],
-                  [(ver, ci, m, r['mode']['etm'], a, b, uc, us, str(pad))],
+                  [(ver, ci, m, r['mode']['etm'], a, b, uc, us, str(pad), str(sorted(ropt.items())))],
                   sample=dict(ver=ver, cipher=ci, mac=m, etm=etm, rsl=[a, b], recordSize=[uc, us], stats=st) if len(len_lits) % 37 == 0 else None)
         ctx.count('live-records', st['records'])
         for v in r['viol']:
             found = True
-            ctx.violation('live:%s:%d.%d:%s:%s:etm=%s' % (v[0], ver[0], ver[1], ci, m, r['mode']['etm'] if 'mode' in r else etm),
+            ctx.violation('live:%s%s:%d.%d:%s:%s:etm=%s' % (v[0], ':resumed' if 'resume' in ropt else '', ver[0], ver[1], ci, m, r['mode']['etm'] if 'mode' in r else etm),
                           'live connection: %s' % (v,), {'args': list(r['args']), 'violation': list(v),
                                                          'how': 'harness/props/C01.py conn_case(args)'})
         for me in 'cs':
@@ -658,6 +767,11 @@ def run(ctx):
                 carried = min(ext, 2 ** 14 + 1 if t13 else 2 ** 14) if client else ext
                 lim_lits.append('(%s, %s, %d, %d, %d, %d)' % (vlib.boollit(t13), vlib.boollit(client), carried, own, isend, irecv))
     ctx.log('live connections: %d run, %d skipped' % (len(results) - nskip, nskip))
+    # every assignment to the record-size-limit state in /repo against the table limit_in_force was written for
+    lim_diffs, _ = c01_sites.diff_sites(vlib.REPO)
+    ctx.count('limit-sites', len(c01_sites.EXPECTED_LIMIT_SITES), [('sites', len(lim_diffs))])
+    if lim_diffs:
+        tie_broken = 'record_size_limit assignment sites differ from the modelled table: ' + '; '.join(lim_diffs[:4])
 
     # ---------------- model vs implementation (vm_compute) ---------------------------------
     if model_ok:
@@ -707,6 +821,8 @@ def replay(ctx, path):
         a[0] = tuple(a[0])
         if a[10] is not None:
             a[10] = tuple(a[10])
+        if len(a) > 11 and a[11]:
+            a[11] = tuple((k, tuple(v) if isinstance(v, list) else v) for k, v in a[11])
         out = conn_case(tuple(a))
         print('violations:', out['viol'], 'stats:', out['stats'])
         return 1 if out['viol'] else 0
